@@ -140,6 +140,18 @@ out['act-home-is-not-home-file-interpreter'] = ('act_interpreters', base(
     'interpreter arguments, then the source file (absolute path in act-home), then the arguments of [act]')
 
 
+# 11. a program symbol used by two programs: what one use appends is not seen by the other
+out['program-symbol-used-twice'] = ('act_command_line', base(
+    pgms=[{'n': 'PA1', 'p': prog(args=[lit('base')], stdin=ts_str('s0 '))},
+          {'n': 'PA2', 'p': ref('PA1', [lit('two')], stdin=ts_str('s2 '), tr=[['upper']])}],
+    act={'k': 'program', 'p': ref('PA2', [lit('act')], stdin=ts_str('s-act')), 'explicit_actor': False, 'comments_before': []},
+    phases={'setup': [{'k': 'run', 'ignore': True, 'p': ref('PA1', [lit('from-setup')], stdin=ts_str('s-setup')),
+                       'shared_symbol': True}],
+            'cleanup': [{'k': 'run', 'ignore': True, 'p': ref('PA2', [lit('from-cleanup')]), 'shared_symbol': True}]},
+    setup_stdin=ts_str(' s-stdin'), claims=three),
+    'argv base from-setup / base two act / base two from-cleanup; stdin "s0 s-setup" / "s0 s2 s-act s-stdin" / "s0 s2 "')
+
+
 def main():
     os.makedirs(os.path.join(root, 'replays', 'C10'), exist_ok=True)
     for name, (sub, case, what) in out.items():
